@@ -94,7 +94,10 @@ def generate(rng, prop='C08'):
         scn['sched'] = [rng.randint(0, 3) for _ in range(rng.randint(1, 8))]
         scn['delayafterread'] = 0.0005
     ops = []
+    import os
     n = rng.randint(1, 10)
+    if os.environ.get('SIMPEX_TIER') == 'thorough' and rng.random() < 0.4:
+        n = rng.randint(10, 40)
     for _ in range(n):
         r = rng.random()
         as_ = None
